@@ -1,1 +1,83 @@
+//! Small independent specs (none of them shares code with deserr or with the crates deserr uses).
+use std::collections::HashMap;
 
+/// True (unrestricted) Damerau–Levenshtein distance over chars: insertions, deletions, substitutions
+/// and transpositions of adjacent characters, where a transposed pair may be edited again.
+pub fn damerau_levenshtein(a: &str, b: &str) -> usize {
+    let a: Vec<char> = a.chars().collect();
+    let b: Vec<char> = b.chars().collect();
+    let (n, m) = (a.len(), b.len());
+    if n == 0 {
+        return m;
+    }
+    if m == 0 {
+        return n;
+    }
+    let inf = n + m;
+    // d has an extra leading row/column (index shifted by one)
+    let mut d = vec![vec![0usize; m + 2]; n + 2];
+    d[0][0] = inf;
+    for i in 0..=n {
+        d[i + 1][0] = inf;
+        d[i + 1][1] = i;
+    }
+    for j in 0..=m {
+        d[0][j + 1] = inf;
+        d[1][j + 1] = j;
+    }
+    let mut last_row: HashMap<char, usize> = HashMap::new();
+    for i in 1..=n {
+        let mut last_match_col = 0usize;
+        for j in 1..=m {
+            let i1 = *last_row.get(&b[j - 1]).unwrap_or(&0);
+            let j1 = last_match_col;
+            let cost = if a[i - 1] == b[j - 1] {
+                last_match_col = j;
+                0
+            } else {
+                1
+            };
+            let sub = d[i][j] + cost;
+            let ins = d[i + 1][j] + 1;
+            let del = d[i][j + 1] + 1;
+            let tr = d[i1][j1] + (i - i1 - 1) + 1 + (j - j1 - 1);
+            d[i + 1][j + 1] = sub.min(ins).min(del).min(tr);
+        }
+        last_row.insert(a[i - 1], i);
+    }
+    d[n + 1][m + 1]
+}
+
+/// The suggestion the statement of C18 allows: the earliest accepted string at minimal distance within
+/// the budget for the received BYTE length; None when there is none.
+pub fn suggestion<'a>(received: &str, accepted: &[&'a str]) -> Option<&'a str> {
+    let budget = match received.len() {
+        0..=3 => return None,
+        4..=7 => 1,
+        8..=12 => 2,
+        13..=17 => 3,
+        18..=24 => 4,
+        _ => 5,
+    };
+    let mut best: Option<(&str, usize)> = None;
+    for a in accepted {
+        let d = damerau_levenshtein(received, a);
+        if d <= budget && best.map_or(true, |(_, bd)| d < bd) {
+            best = Some((a, d));
+        }
+    }
+    best.map(|b| b.0)
+}
+
+#[cfg(test)]
+mod tests {
+    use super::*;
+    #[test]
+    fn dl() {
+        assert_eq!(damerau_levenshtein("ca", "abc"), 2);
+        assert_eq!(damerau_levenshtein("abcd", "acbd"), 1);
+        assert_eq!(damerau_levenshtein("kitten", "sitting"), 3);
+        assert_eq!(damerau_levenshtein("", "abc"), 3);
+        assert_eq!(damerau_levenshtein("a", "a"), 0);
+    }
+}
